@@ -154,9 +154,9 @@ func runC09(permsFile, rowsFile string, seed int64, b *hc.Builder) {
 		writerSink("pretty", restlicodec.NewPrettyJsonWriter, true),
 		writerSink("header", restlicodec.NewRor2HeaderWriter, false),
 		writerSink("path", func() restlicodec.Writer { return restlicodec.NewRor2PathWriter() }, false),
-		writerSink("querywriter", restlicodec.NewRestLiQueryParamsWriter, false),
+		writerSink("querywriter", newQueryWriter, false),
 		{"queryparams", func(keys []string) (string, []string, error) {
-			out, err := restlicodec.BuildQueryParams(func(kw func(string) restlicodec.Writer) error {
+			out, err := buildQueryParams(func(kw func(string) restlicodec.Writer) error {
 				for i, k := range keys {
 					kw(k).WriteInt32(int32(i))
 				}
@@ -376,7 +376,7 @@ func c09History(stats map[string]int) {
 		w    func() restlicodec.Writer
 	}
 	writers := []mk{{"json", restlicodec.NewCompactJsonWriter}, {"pretty", restlicodec.NewPrettyJsonWriter}, {"header", restlicodec.NewRor2HeaderWriter},
-		{"path", func() restlicodec.Writer { return restlicodec.NewRor2PathWriter() }}, {"query", restlicodec.NewRestLiQueryParamsWriter}}
+		{"path", func() restlicodec.Writer { return restlicodec.NewRor2PathWriter() }}, {"query", newQueryWriter}}
 	good := func(w restlicodec.Writer) (string, error) {
 		err := w.WriteMap(func(kw func(string) restlicodec.Writer) error {
 			kw("age").WriteInt32(30)
@@ -509,7 +509,7 @@ func c09Concurrent(stats map[string]int) {
 	}
 	jobs := []job{
 		{"queryparams", func(i int) (string, error) {
-			return restlicodec.BuildQueryParams(func(kw func(string) restlicodec.Writer) error {
+			return buildQueryParams(func(kw func(string) restlicodec.Writer) error {
 				kw("q").WriteString(fmt.Sprintf("search (%d) a&b=c d+e", i))
 				kw("ids").WriteArray(func(iw func() restlicodec.Writer) error {
 					iw().WriteString(fmt.Sprintf("k,%d", i))
